@@ -251,7 +251,7 @@ def run(tier="quick", seed=0, arg=None):
                         fail("C04.arbitrary-contains-raises", {"a": a_t, "b": t, "op": tag, "version": str(v)}, repr(e), exp)
                         break
                     if got != exp:
-                        fail("C04.arbitrary", {"a": a_t, "b": t, "op": tag, "version": str(v)}, got, exp)
+                        fail("C04.arbitrary", {"a": a_t, "b": t, "op": tag, "version": str(v), "str": _safe_str(b), "object": O.describe(b)}, got, exp)
                         break
     # ---- C06 on parsed texts and small combinations
     for t, s in parsed.items():
